@@ -543,7 +543,9 @@ pub mod value {
                     write!(f, "\"")
                 }
                 Vec(vs) => {
-                    if let Some(Nat8(_)) = vs.first() {
+                    // the blob form is only for vectors made of nat8 throughout (a hand-built or parsed vector
+                    // may start with a nat8 and go on with something else)
+                    if !vs.is_empty() && vs.iter().all(|v| matches!(v, Nat8(_))) {
                         write!(f, "blob \"")?;
                         for v in vs.iter() {
                             match v {
